@@ -136,6 +136,29 @@ def p_enum(itp, name, args, kw, node, st):
     return o
 
 
+def _sym_to_aff(e):
+    """sympy expression, affine with rational coefficients in the size symbols -> Aff (None otherwise)"""
+    try:
+        e = sp.expand(e)
+        syms = sorted(e.free_symbols, key=str)
+        if not syms:
+            return Aff(F(int(sp.Rational(e).p), int(sp.Rational(e).q)))
+        poly = sp.Poly(e, *syms)
+        if poly.total_degree() > 1:
+            return None
+        out = Aff(0)
+        for mon, co in poly.terms():
+            co = sp.Rational(co)
+            fr = F(int(co.p), int(co.q))
+            if sum(mon) == 0:
+                out = out + Aff(fr)
+            else:
+                out = out + Aff.sym(syms[list(mon).index(1)].name).scale(fr)
+        return out
+    except Exception:
+        return None
+
+
 @prim('builtins.int', 'numpy.int64', 'numpy.int32')
 def p_int(itp, name, args, kw, node, st):
     v = args[0]
@@ -144,6 +167,19 @@ def p_int(itp, name, args, kw, node, st):
     if isinstance(v, IntV):
         return v
     n = N(v)
+    fq = getattr(v, 'fquot', None)
+    if n is not None and n.ex is None and fq is not None:
+        # int() of a floating-point quotient of two frequencies whose exact value is fq
+        ex_ = _sym_to_aff(fq)
+        if ex_ is not None:
+            if ex_.is_integral():
+                itp.conflict('round', 'index', 'int() truncates a floating-point quotient of two frequencies whose exact value is the '
+                             'integer %s: the computed quotient can be one ulp below it (depending on the sampling rate and NFFT), and '
+                             'truncation then gives %s - 1 -- a count or slice bound must come from the integer NFFT' % (ex_, ex_), node)
+                return IntV(ex_, n.taint)
+            r_ = _trunc_aff(itp, ex_, node, 'int()')
+            if r_ is not None:
+                return IntV(r_, n.taint)
     if n is not None and n.ex is not None:
         r_ = _trunc_aff(itp, n.ex, node, 'int()')
         if r_ is not None:
@@ -1366,6 +1402,9 @@ def p_bilinear(itp, name, args, kw, node, st):
         b = p_conj(itp, 'numpy.conj', [b], {}, node, st)
     r = num_mul(itp, a, b, node)
     r.ex = None
+    if base in ('dot', 'vdot', 'inner') and a.shape is not None and b.shape is not None and len(a.shape) == 1 and len(b.shape) == 1:
+        # inner product of two vectors: the number of products summed (rules compare it with the definition's count)
+        itp.events.append(('contract', node, a.shape[0], b.shape[0], itp.cur.qname if itp.cur else ''))
     if itp.d4:
         from . import charge as Q
         if base in ('dot', 'vdot', 'inner') and a.shape is not None and b.shape is not None and len(a.shape) == 1 and len(b.shape) == 1:
@@ -1519,6 +1558,26 @@ def p_svd(itp, name, args, kw, node, st):
              'invariant under a unitary diagonal acting on the rows; singular vectors are degree 0')
     itp.events.append(('svd', node, a, S, Vh))
     return Tup([U, S, Vh])
+
+
+@prim('numpy.linalg.eigh', 'scipy.linalg.eigh')
+def p_eigh(itp, name, args, kw, node, st):
+    """eigh(A) -> (w, V): real eigenvalues in ASCENDING order, eigenvectors in the columns.  The eigenvalues of a Gram matrix
+    A^H A are the squared singular values of A only in exact arithmetic: computed, the null ones come out as +-round-off"""
+    a = N(args[0])
+    if a is None:
+        return mk(itp, 'eigh', *args)
+    n = a.shape[0] if (a.shape is not None and len(a.shape) == 2) else None
+    w = Num(dict(a.deg), (n,), False, taint=a.taint | frozenset(['EIG:%d' % getattr(node, 'lineno', 0)]))
+    w.deg['g'] = F(0)
+    w.nonneg = False
+    w.role = 'eigenvalues'
+    V = Num(zero_deg(), (n, n), a.cplx, taint=a.taint)
+    V.deg['g'] = TOP
+    V.role = 'eigenvectors'
+    itp.events.append(('eigh', node, a, w, V, itp.cur.qname if itp.cur else ''))
+    USED.add('eigh(A): real eigenvalues ascending with the degrees of A, eigenvectors (columns) of degree 0')
+    return Tup([w, V])
 
 
 @prim('scipy.linalg.lstsq', 'numpy.linalg.lstsq')
